@@ -74,6 +74,15 @@ def run_case(job: dict) -> dict:
     """Build and run one case in a worker process; returns the trace record."""
     tdesc, inputs, kinds, storage = job["tdesc"], job["inputs"], job["kinds"], job["storage"]
     pdesc = job.get("pdesc") or pmap.tla_desc_to_py(tdesc)
+    # how pipefunc learns the internal shapes: declared on the function ("decl"), only passed to map ("map"), or declared
+    # WRONG on the function and overridden by map(internal_shapes=) ("override": the map argument has precedence)
+    via, ishapes = kinds.get("__via__", "decl"), None
+    if via != "decl":
+        ishapes = {}
+        for fd in pdesc["funcs"]:
+            if fd.get("internal_shape"):
+                fd["decl_internal_shape"] = None if via == "map" else [n + 1 for n in fd["internal_shape"]]
+                ishapes.update({o: tuple(fd["internal_shape"]) for o in fd["outputs"]})
     build.LOG.clear()
     tmp = tempfile.mkdtemp(prefix="pfverif_c01_")
     try:
@@ -85,7 +94,7 @@ def run_case(job: dict) -> dict:
                            msg="construct: " + str(ex)[:300])]
             return {"desc": tdesc, "inputs": inputs, "ev": evs, "storage": storage, "kinds": kinds}
         inp = pmap.inputs_to_py(inputs, kinds)
-        evs, _ = pmap.do_map(pl, pdesc, inp, run_folder=tmp, storage=storage, parallel=False)
+        evs, _ = pmap.do_map(pl, pdesc, inp, run_folder=tmp, storage=storage, parallel=False, internal_shapes=ishapes or None)
         return {"desc": tdesc, "inputs": inputs, "ev": evs, "storage": storage, "kinds": kinds}
     finally:
         shutil.rmtree(tmp, ignore_errors=True)
@@ -143,7 +152,8 @@ def run(ctx: Ctx) -> None:
             kinds_list = [{n: "list" for n in names}, {n: "ndarray" for n in names}]
         for s in st:
             for kinds in kinds_list:
-                jobs.append({"tdesc": c["desc"], "inputs": c["inputs"], "kinds": kinds, "storage": s})
+                jobs.append({"tdesc": c["desc"], "inputs": c["inputs"], "storage": s,
+                             "kinds": dict(kinds, __via__=("decl", "map", "override")[(k // 3) % 3])})
     traces = run_jobs(jobs)
     for t in traces:
         ctx.case({"d": t["desc"], "i": t["inputs"], "s": t["storage"], "k": t["kinds"]}, nontrivial(t))
